@@ -598,7 +598,68 @@ def run_lang_project(_job):
     return out
 
 
+# ---- placeholder spellings: "@TEMPLATE@ placeholders are substituted" ------------------------------------------------------
+# Every documented placeholder and its near-misses (zero-padded / out-of-range / non-ASCII digits, doubled, embedded, unterminated)
+# as an argument of a generator and of a custom target.  What an undocumented spelling turns into is not specified; what is:
+# configuration terminates, with success or an ordinary error - no traceback, no endless loop - and when it succeeds the
+# documented spellings were replaced (the argument that reaches argv no longer contains them).
+PLACEHOLDERS = ['@OUTPUT@', '@INPUT@', '@OUTPUT0@', '@INPUT0@', '@OUTPUT00@', '@INPUT00@', '@OUTPUT1@', '@INPUT1@', '@OUTPUT01@', '@OUTPUT\uff10@',
+                '@OUTPUT\u0669@', 'x@OUTPUT0@y', '@OUTPUT0@@OUTPUT0@', '@OUTPUT0@@INPUT0@', '@OUTPUT-1@', '@OUTPUT+0@', '@OUTPUT 0@', '@OUTDIR@',
+                '@BUILD_DIR@', '@CURRENT_SOURCE_DIR@', '@SOURCE_ROOT@', '@BUILD_ROOT@', '@PLAINNAME@', '@BASENAME@', '@DEPFILE@',
+                '@EXTRA_ARGS@', '@PRIVATE_DIR@', '@SOURCE_DIR@', '@OUTPUT', 'OUTPUT@', '@@', '@OUTPUT@@', '@@OUTPUT@', '@OUTPUT999999999999999999999@']
+DOCUMENTED = {'generator': ['@OUTPUT@', '@INPUT@', '@OUTPUT0@', '@PLAINNAME@', '@BASENAME@', '@BUILD_DIR@', '@SOURCE_ROOT@', '@BUILD_ROOT@', '@CURRENT_SOURCE_DIR@'],
+              'custom_target': ['@OUTPUT@', '@INPUT@', '@OUTPUT0@', '@INPUT0@', '@OUTDIR@', '@PLAINNAME@', '@BASENAME@', '@PRIVATE_DIR@', '@SOURCE_ROOT@',
+                                '@BUILD_ROOT@', '@CURRENT_SOURCE_DIR@']}
+
+
+def run_placeholder(job):
+    from verif import mesonproc as mp
+    _, _, where, ph = job
+    root = os.path.join(scratch_root(), 'c03ph.%d' % os.getpid())
+    shutil.rmtree(root, ignore_errors=True)
+    dumpfile = os.path.join(root, 'ph.dump')
+    L = ["project('ph', 'c')", "dump = find_program(%s)" % lit(DUMP)]
+    if where == 'generator':
+        L.append("g = generator(dump, output: '@BASENAME@.c', arguments: ['--dump=%s', 'first', %s, 'last', '@INPUT@'])" % (dumpfile, lit(ph)))
+        L.append("executable('e', g.process('a.in'))")
+    else:
+        L.append("custom_target('t', input: 'a.in', output: 'a.out', command: [dump, '--dump=%s', 'first', %s, 'last'], build_by_default: true)" % (dumpfile, lit(ph)))
+    files = {'meson.build': '\n'.join(L) + '\n', 'a.in': 'int main(void) { return 0; }\n'}
+    mp.write_tree(root, files)
+    env = mp.base_env(home=os.path.join(root, 'home'))
+    out = {'viol': [], 'cases': 1, 'by_kind': {'placeholder-' + where: 1}, 'wrapped': 0, 'rsp_edges': 0, 'ph': (where, ph, 'error')}
+    r = mp.run_meson(['setup', 'b'], root, env=env, timeout=120)
+    rep_ = {'given': ph, 'placeholder_position': where}
+    if r.rc not in (0, 1) or r.unhandled or r.signaled:
+        out['viol'].append(('C03:placeholder:%s' % ('endless-or-killed' if r.signaled else 'traceback'),
+                            '%s argument %r: meson setup ends with status %r%s: %s' % (where, ph, r.rc, ' (Python traceback)' if r.unhandled else '', r.out[-300:].replace('\n', ' | ')), rep_))
+    elif r.rc == 0:
+        out['ph'] = (where, ph, 'configured')
+        bdir = os.path.join(root, 'b')
+        mf = rn.parse_file(os.path.join(bdir, 'build.ninja'))
+        edges = [e for e in mf.edges if e.rule.name == 'CUSTOM_COMMAND' and any(o.endswith(('a.c', 'a.out')) for o in e.outs)]
+        if len(edges) != 1:
+            out['viol'].append(('C03:placeholder:no-edge', '%s argument %r: no statement for the output' % (where, ph), rep_))
+        else:
+            rr = rn.run_edge(edges[0], bdir)
+            try:
+                args, _ = parse_dump(dumpfile)
+            except Exception:
+                args = None
+            if args is None or b('first') not in args or b('last') not in args:
+                out['viol'].append(('C03:placeholder:command-fails', '%s argument %r: the generated command does not deliver its arguments (%s)' % (where, ph, rr.output[-200:]), rep_))
+            else:
+                mid = args[args.index(b('first')) + 1:args.index(b('last'))]
+                if ph in DOCUMENTED[where] and (len(mid) != 1 or b(ph) in mid[0]):
+                    out['viol'].append(('C03:placeholder:not-substituted', '%s argument %r (documented) arrives as %r' % (where, ph, mid), rep_))
+                out['ph'] = (where, ph, 'substituted' if (mid and b(ph) not in mid[0]) or not mid else 'literal')
+    shutil.rmtree(root, ignore_errors=True)
+    return out
+
+
 def run_any(job):
+    if job[1] == 'PH':
+        return run_placeholder(job)
     return run_lang_project(job) if job[1] == 'LANG' else run_project(job)
 
 
@@ -610,6 +671,13 @@ def main():
         d = json.load(open(ck.args.replay))
         g = d.get('given')
         lst = g if isinstance(g, list) else [g]
+        if d.get('placeholder_position'):
+            from verif import mesonproc as mp
+            mp.preimport()
+            res = run_placeholder((0, 'PH', d['placeholder_position'], g))
+            for k, w, _ in res['viol']:
+                print(k, w)
+            sys.exit(1 if res['viol'] else 0)
         res = run_project((0, [s for s in lst if isinstance(s, str)] or ['a'], d.get('rsp_forced', False)))
         for k, w, _ in res['viol']:
             print(k, w)
@@ -628,8 +696,13 @@ def main():
         jobs.append((len(jobs), part, True))
     if ck.want('lang'):
         jobs.insert(0, (len(jobs), 'LANG', False))
+    if ck.want('placeholders'):
+        for where in ('generator', 'custom_target'):
+            for ph in PLACEHOLDERS:
+                jobs.append((len(jobs), 'PH', where, ph))
     tot = {'cases': 0, 'projects': 0, 'wrapped_edges': 0, 'rsp_edges': 0}
     kinds = {}
+    ph_outcomes = {}
     for res in pmap(run_any, jobs, chunksize=1):
         tot['projects'] += 1
         tot['cases'] += res['cases']
@@ -639,6 +712,12 @@ def main():
             kinds[k] = kinds.get(k, 0) + v
         for key, what, rep in res['viol']:
             ck.violation(key, what, rep)
+        if 'ph' in res:
+            ph_outcomes.setdefault(res['ph'][2], []).append('%s:%s' % res['ph'][:2])
+    if ph_outcomes:
+        ck.part('placeholders', spellings=len(PLACEHOLDERS), **{k: len(v) for k, v in ph_outcomes.items()})
+        if not ck.n_viol:
+            ck.require(len(ph_outcomes.get('substituted', [])) >= 12 and ph_outcomes.get('error'), 'placeholder family one-sided: %r' % {k: len(v) for k, v in ph_outcomes.items()})
     ck.part('positions', **kinds)
     ck.require(tot['rsp_edges'] > 0, 'no response-file statement seen')
     ck.part('totals', strings=len(strings), max_atoms=n, **tot)
